@@ -37,7 +37,7 @@ def run_one(sid, props):
         ap = sh(["git", "-C", wt, "apply", os.path.join(ROOT, "seeded", sid, "patch.diff")])
         if ap.returncode != 0:
             return sid, {"error": "patch does not apply: " + ap.stderr[:200]}
-        env = dict(os.environ, VERIF_REPO=wt, VERIF_OUT=out, VERIF_SEED=os.environ.get("VERIF_SEED", "0"))
+        env = dict(os.environ, VERIF_REPO=wt, VERIF_OUT=out, VERIF_NOSHRINK="1", VERIF_SEED=os.environ.get("VERIF_SEED", "0"))
         for p in props:
             c = sh(["/venv/bin/python", "harness/check.py", "--property", p, "--tier", "quick", "--skip-lean", "--procs", "4"],
                    cwd=ROOT, env=env)
@@ -56,7 +56,7 @@ def main():
                                  if os.path.isdir(os.path.join(ROOT, "seeded", d)))
     path = os.path.join(ROOT, "seeded", "MATRIX.json")
     matrix = json.load(open(path)) if os.path.exists(path) else {}
-    with cf.ThreadPoolExecutor(max_workers=4) as ex:
+    with cf.ThreadPoolExecutor(max_workers=5) as ex:
         for sid, res in ex.map(lambda s: run_one(s, props), ids):
             matrix.setdefault(sid, {}).update(res)
             caught = [p for p, rc in sorted(matrix[sid].items()) if rc == 1]
